@@ -53,7 +53,9 @@ impl Distribution for Uniform {
 
 impl Distribution1D for Uniform {
     fn update(&mut self, params: &[f64]) {
-        self.set_lower(params[0]).set_upper(params[1]);
+        // validate the new pair as a whole: the new bounds may lie entirely above or below the
+        // current interval
+        *self = Self::new(params[0], params[1]);
     }
 }
 
